@@ -21,7 +21,7 @@ add_opaque = Fn(F, [SET, "add_opaque"], ret="r", extra_params=TG,
 select = Fn(F, [SET, "select"], ret="r", extra_params=TG,
     ensures=[Clause("ipc.IpcReceiverSet.select/ensures.one_result_per_platform_event_same_order_same_id_same_content",
                     "r matches Ok(v) ==> final(g).selected == old(g).selected.push(final(g).selected.last()) && v@.len() == final(g).selected.last().len()\n"
-                    "&& (forall|i: int| 0 <= i < v@.len() ==> event_ok(final(g).selected.last()[i], #[trigger] v@[i]))", ["C06"]),
+                    "&& (forall|i: int| 0 <= i < v@.len() ==> event_ok(final(g).selected.last()[i], #[trigger] v@[i]))", ["C06", "C07"]),
              Clause("ipc.IpcReceiverSet.select/ensures.frame", "final(g).added == old(g).added && (r is Err ==> final(g).selected == old(g).selected)")],
     rules=[AppendArg("B81", r"self\.os_receiver_set\.select\(", GG, "platform select (unit U5)", min_count=1),
            MapCollect("D30", "result", "map_results", "iterator adapter chain -> stub stating the element-wise map; the closure body is verified separately")],
